@@ -338,8 +338,90 @@ def wait_threads(filtered, nframes, prior):
              "C16/threads/log")
 
 
+def two_waiters(filtered):
+    """Two threads wait on the same consumer while a third delivers one frame (every schedule at lock
+    granularity): every waiter that was parked in wait() when the frame arrived, and whose filter matches, gets
+    that entry - a frame wakes all waiters, not just one."""
+    cons = emcy().EmcyConsumer()
+    want = sx.fresh_int("want", 0, 0xFFFF)
+    f = _frame("f")
+    code, reg, data = _fields(f)
+    sched = sx.scheduler()
+    res = {}
+    parked = {}
+
+    def waiter_b():
+        res["b"] = cons.wait(None, timeout=1)
+
+    def feeder():
+        for t in sched.threads:
+            parked[t.name] = (t.state == "waiting")
+        cons.on_emcy(0x81, f, 10)
+    sched.spawn(waiter_b, "b")
+    sched.spawn(feeder, "feeder")
+    res["a"] = cons.wait(want if filtered else None, timeout=1)
+    sched.join()
+    sx.observe("res", [None if res.get(k) is None else res[k].code for k in ("a", "b")])
+    sx.observe("parked", [parked.get("main"), parked.get("b")])
+    tag = "C16/two-waiters/%s" % ("filtered" if filtered else "any")
+    sx.prove(len(cons.log) == 1, "one frame logged", tag + "/log")
+    if parked.get("b"):
+        sx.prove(res.get("b") is not None and res["b"] is cons.log[0], "a parked waiter missed the frame",
+                 tag + "/second-waiter")
+        sx.reach("two-waiters-parked")
+    if parked.get("main"):
+        if filtered:
+            if bool(code == want):
+                sx.prove(res["a"] is not None and res["a"] is cons.log[0], "a parked matching waiter missed the frame",
+                         tag + "/first-waiter")
+            else:
+                sx.prove(res["a"] is None, "a non-matching frame was returned", tag + "/filter")
+        else:
+            sx.prove(res["a"] is not None and res["a"] is cons.log[0], "a parked waiter missed the frame",
+                     tag + "/first-waiter")
+    for k in ("a", "b"):
+        if res.get(k) is not None:
+            sx.prove(res[k] is cons.log[0], "wait returned something else than the frame's entry", tag + "/entry")
+    sx.reach("two-waiters")
+
+
+def repeated_producer():
+    """the producer sends what it is asked to send, every time: the same error reported again after a reset (and
+    twice in a row) reaches the consumer each time"""
+    prod = emcy().EmcyProducer(0x81)
+    cons = emcy().EmcyConsumer()
+    wire = []
+
+    class Net:
+        def send_message(self, can_id, data, remote=False):
+            wire.append((can_id, data))
+            cons.on_emcy(can_id, data, len(wire))
+    prod.network = Net()
+    code = sx.fresh_int("code", 0x0100, 0xFFFF)
+    reg = sx.fresh_byte("reg")
+    data = sx.fresh_bytes("data", 5)
+    prod.send(code, reg, data)
+    prod.reset()
+    prod.send(code, reg, data)
+    prod.send(code, reg, data)
+    prod.reset()
+    prod.reset()
+    tag = "C16/producer-history"
+    sx.prove(len(wire) == 6 and len(cons.log) == 6, "every send()/reset() puts one frame on the bus", tag + "/count")
+    if len(cons.log) == 6:
+        sx.prove(sx.all_([_same_entry(cons.log[i], code, reg, sx.items(data), i + 1) for i in (0, 2, 3)]),
+                 "repeated error decoded each time", tag + "/entries")
+        sx.prove((cons.log[1].code == 0) & (cons.log[4].code == 0) & (cons.log[5].code == 0), "reset frames carry code 0",
+                 tag + "/resets")
+    sx.prove(len(cons.active) == 0, "active list empty after the final reset", tag + "/active")
+    sx.reach("producer-history")
+
+
 def jobs(tier):
     out = []
+    for filtered in (False, True):
+        out.append(dict(func="two_waiters", params=dict(filtered=filtered), weight=50))
+    out.append(dict(func="repeated_producer", params={}))
     for nlog in range(0, 3):
         for nact in range(0, nlog + 1):
             out.append(dict(func="step", params=dict(nlog=nlog, nact=nact)))
@@ -381,7 +463,7 @@ META = dict(
                     "log entry)", "OS-thread interleavings", "data longer than 5 bytes"],
     assumptions=["fake clock: a wake-up without delivery advances time by the time-out"],
     stubs=["struct", "threading.Condition", "time", "bytes"],
-    required_reach=["step", "reset-cleared", "history", "history-reset", "long-step", "reentrant", "producer", "producer-reset", "desc", "wait-timeout",
+    required_reach=["step", "reset-cleared", "history", "history-reset", "long-step", "reentrant", "two-waiters", "two-waiters-parked", "producer-history", "producer", "producer-reset", "desc", "wait-timeout",
                     "wait-hit", "threads-entry", "threads-none"],
     limits=dict(quick=dict(), thorough=dict(crosscheck_every=2, crosscheck_max=40)),
 )
